@@ -288,6 +288,15 @@ func l2Leaves(w *World, q *QueryDef, l *Layout, recv []string) ([][]*protoCommon
 // runLayoutL2 is runLayout with real storage leaves (no `plan` / `leaf` ops: the leaf is a black
 // box here; its responses, the intermediates and the root are mirrored as in level 1).
 func runLayoutL2(c *core.Ctx, w *World, q *QueryDef, l *Layout, ctxBase int) (runOut, error) {
+	return runLayoutL2e(c, w, q, l, ctxBase, true)
+}
+
+func runLayoutL2e(c *core.Ctx, w *World, q *QueryDef, l *Layout, ctxBase int, emit bool) (runOut, error) {
+	op := func(o, out string) {
+		if emit {
+			c.Op(o, out)
+		}
+	}
 	recvNames := []string{"root"}
 	if l.Receivers > 0 {
 		recvNames = nil
@@ -317,11 +326,11 @@ func runLayoutL2(c *core.Ctx, w *World, q *QueryDef, l *Layout, ctxBase int) (ru
 				return runOut{}, err
 			}
 			id := ctxBase + 1 + j
-			c.Op(fmt.Sprintf("new %d %d", id, len(l.Leaves)), stateLine(&ic.Ctx.MetricContext))
+			op(fmt.Sprintf("new %d %d", id, len(l.Leaves)), stateLine(&ic.Ctx.MetricContext))
 			for _, li := range l.LeafPerm[j] {
 				r := leafResp[li][j]
 				ic.Ctx.HandleResponse(r, leafNames[li])
-				c.Op(fmt.Sprintf("resp %d %s", id, encodeResp(r)), stateLine(&ic.Ctx.MetricContext))
+				op(fmt.Sprintf("resp %d %s", id, encodeResp(r)), stateLine(&ic.Ctx.MetricContext))
 			}
 			out := ic.Finish()
 			if out == nil {
@@ -336,7 +345,7 @@ func runLayoutL2(c *core.Ctx, w *World, q *QueryDef, l *Layout, ctxBase int) (ru
 			} else if strings.Contains(out.ErrMsg, "not found") {
 				el = "nf"
 			}
-			c.Op(fmt.Sprintf("emit %d", id), el)
+			op(fmt.Sprintf("emit %d", id), el)
 			rootInputs = append(rootInputs, out)
 			rootFrom = append(rootFrom, recvNames[j])
 		}
@@ -350,24 +359,36 @@ func runLayoutL2(c *core.Ctx, w *World, q *QueryDef, l *Layout, ctxBase int) (ru
 	if err != nil {
 		return runOut{}, err
 	}
-	c.Op(fmt.Sprintf("new %d %d", ctxBase, len(rootInputs)), stateLine(&root.Ctx.MetricContext))
+	op(fmt.Sprintf("new %d %d", ctxBase, len(rootInputs)), stateLine(&root.Ctx.MetricContext))
 	perm := l.RootPerm
 	if l.Receivers == 0 {
 		perm = l.LeafPerm[0]
 	}
 	for _, k := range perm {
 		root.Ctx.HandleResponse(rootInputs[k], rootFrom[k])
-		c.Op(fmt.Sprintf("resp %d %s", ctxBase, encodeResp(rootInputs[k])), stateLine(&root.Ctx.MetricContext))
+		op(fmt.Sprintf("resp %d %s", ctxBase, encodeResp(rootInputs[k])), stateLine(&root.Ctx.MetricContext))
 	}
 	res := root.Finish()
-	fullRoot, err := mk(1 << 20)
-	if err != nil {
-		return runOut{}, err
+	var full *Result
+	if q.Limit >= 100 {
+		fullRoot, err := mk(1 << 20)
+		if err != nil {
+			return runOut{}, err
+		}
+		for _, k := range perm {
+			fullRoot.Ctx.HandleResponse(rootInputs[k], rootFrom[k])
+		}
+		full = fullRoot.Finish()
+	} else {
+		// the whole path again (real storage leaves included) with the limit lifted
+		qq := *q
+		qq.Limit = 1 << 20
+		fr, err := runLayoutL2e(c, w, &qq, l, ctxBase, false)
+		if err != nil {
+			return runOut{}, err
+		}
+		full = fr.res
 	}
-	for _, k := range perm {
-		fullRoot.Ctx.HandleResponse(rootInputs[k], rootFrom[k])
-	}
-	full := fullRoot.Finish()
-	c.Op(q.resultOp(ctxBase), res.line(q, full))
+	op(q.resultOp(ctxBase), res.line(q, full))
 	return runOut{res: res, full: full}, nil
 }
